@@ -182,7 +182,7 @@ def evaluator(an: Analysis, m, version):
     return ev
 
 
-def _fold_tables(an, version, ws):
+def _fold_tables(an, version, ws, lines_matter=True):
     """Fold the codec over the tables `ws` under interpreter `version`: (tables with wrong lines, tables written back differently, gap or None)."""
     from .c10 import find_stages
     st = find_stages(an)
@@ -209,7 +209,7 @@ def _fold_tables(an, version, ws):
                 if got != want or (got is None) != (want is None):
                     why = f"offset {off} gets line {got!r}, CPython reads {want!r}"
                     break
-            if why:
+            if why and lines_matter:
                 bad_lines.append(f"{name} ({tab.hex()[:40]}): {why}")
                 continue
             back = ev.call_method(enc.node, mapping)
@@ -256,6 +256,34 @@ def raw_tables_rule(an: Analysis, rep, rule="R10.F"):
             f"{len(RAW_LINETABLES)} tables" if not bad_lines else bad_lines[0])
     rep.add(rule, f"{enc.qual}::adjacent ranges without a line are written back byte for byte [3.10]", not bad_bytes, loc(enc.module, enc.node),
             f"{len(RAW_LINETABLES)} tables" if not bad_bytes else bad_bytes[0] + ": the mapping holds None for both ranges, the boundary between them has no place in it")
+
+
+# 3.10 tables nobody's assembler writes but `code.replace(co_linetable=...)` can: the same lines cut into other entries.
+HAND_LINETABLES = [
+    ("one line cut into two entries", bytes([2, 1, 6, 0]), 8),
+    ("an empty entry in front", bytes([0, 1, 8, 0]), 8),
+    ("an empty entry in the middle that is taken back", bytes([2, 1, 0, 3, 6, 0xFD]), 8),
+    ("a last entry of odd length", bytes([4, 1, 3, 1]), 8),
+    ("a table that ends before the code does", bytes([4, 1]), 8),
+]
+
+
+def hand_tables_rule(an: Analysis, rep, rule="R11.H2"):
+    """C11: for a hand-altered 3.10 line table from_code either raises or the decoded mapping is written back as the same bytes."""
+    from .c10 import find_stages
+    rep.rule(rule, "a 3.10 line table the mapping cannot hold is refused or reproduced, never silently rewritten", 1)
+    st = find_stages(an)
+    dec, enc = st["decode"], st["encode"]
+    bad = []
+    for name, tab, n in HAND_LINETABLES:
+        bl, bb, gap = _fold_tables(an, (3, 10), [(name, tab, n)], lines_matter=False)
+        if gap:
+            raise AnalysisError(gap)
+        if bb:
+            bad.append(bb[0])
+    rep.add(rule, f"{dec.qual}::hand-altered 3.10 tables are refused or reproduced", not bad, loc(dec.module, dec.node),
+            f"{len(HAND_LINETABLES)} tables (one line cut into two entries, empty entries, odd length, a table that ends early): refused, or written back byte for byte" if not bad else
+            bad[0] + (f" (+{len(bad) - 1} more)" if len(bad) > 1 else "") + " - from_code returns data whose to_code() has another co_linetable, silently")
 
 
 def fold_rule(an: Analysis, rep, rule="R10.F"):
